@@ -272,7 +272,9 @@ example :
 
 /-- **What `TLVWrite::tlv` / `start_*` / `end_container` do with ANY tree** (no hypothesis): if every
 string length fits the length field of its element type the bytes are `encode v`; otherwise the writer
-answers `InvalidData` and — for a leaf — has written nothing.  (Before the fix it wrote `encode v` in both
+answers `InvalidData` (the refused element itself is not started; `write : Value → Res Bytes` has no buffer state, so
+"the buffer is unchanged for a refused top-level leaf" is checked by the Rust unit test only, and inside a container the
+bytes written before the refused leaf remain).  (Before the fix it wrote `encode v` in both
 cases, i.e. a length field truncated by `as u8/u16/u32`.) -/
 theorem writer_total (v : Value) :
     (v.lenFits = true → write v = .ok (encode v)) ∧ (v.lenFits = false → write v = .err .invalidData) := by
